@@ -178,7 +178,7 @@ def pay_ending(r, kind, code0=None):
         ev += tail
     return ev
 
-def story_case(r, ending=None, npieces=None, reject=None, nhash=1, heights=True, cfg=None, amount=None, second=False, burst=False, amountless=False, code0=None):
+def story_case(r, ending=None, npieces=None, reject=None, nhash=1, heights=True, cfg=None, amount=None, second=False, burst=False, amountless=False, code0=None, late_extra=None):
     """One payment from first HTLC to its fate. reject: None | (kind, position)"""
     cfg = cfg or mk_cfg(r)
     b = CaseBuilder(r, cfg, nhash)
@@ -229,6 +229,14 @@ def story_case(r, ending=None, npieces=None, reject=None, nhash=1, heights=True,
             for _ in range(r.below(4)): script.append({"e": "drain_step"})
             if heights and r.chance(1, 4): script.append({"e": "height", "v": r.below(2500)})
             if r.chance(1, 5): script.append({"e": "tick", "ms": 1000 * (1 + r.below(5))})
+    if late_extra:
+        # one more part arrives when the set is already complete, before the lifecycle has read the payment parameters
+        # (window: the first datastore read; after a restart: the whole wait_payment). "low_expiry": it expires earlier than
+        # every part counted so far (and still passes the relative-expiry gate).
+        lo = min(h["req"]["htlc"]["cltv_expiry"] for h in hts if isinstance(h, dict) and "req" in h)
+        for _ in range(r.below(3)): script.append({"e": "drain_step"})
+        script.append(b.htlc(inv, r.choice([1000, 1, total]), total, expiry=max(1, lo - r.choice([1, 34, 100, 500])) if late_extra == "low_expiry" else lo + 7,
+                             rel=pol[2] + r.below(300), amount_tlv=atlv))
     script.append({"e": "drain"})
     script += pay_ending(r, ending or r.choice(PAY_ENDINGS), code0)
     script.append({"e": "drain"})
